@@ -2,6 +2,7 @@ import IrVerif.Drive.Util
 import IrVerif.Model.Layout
 import IrVerif.Model.LayoutSt
 import IrVerif.Model.LayoutSeq
+import IrVerif.Model.LayoutStSave
 /-! Protocol handler for `IrVerif.Layout` (property C07).  Commands `layout.*`.
 Optional naturals are JSON `null` or a number; byte strings travel as lower-case hex. -/
 open Lean IrVerif.Drive
@@ -92,16 +93,76 @@ def refJ : Ref FileKey → Json
   | .stale => Json.arr #[Json.str "S"]
   | .ext (b, i, n) off len => Json.arr #[Json.str "E", toJson b, toJson i, toJson n, toJson off, toJson len]
 
-def getSeqOp (e : Json) : Except String (SeqOp FileKey) := do
+def getOpSpec (e : Json) : Except String OpSpec := do
   let op ← e.getObjValAs? String "op"
   match op with
   | "load" => pure .load
   | "load_to_model" => pure .loadToModel
-  | "convert" => pure (.convertFromExternal (← e.getObjValAs? Nat "k"))
+  | "convert" => pure (.convert (← e.getObjValAs? Nat "k"))
+  | "save_st" => pure (.stSave (← e.getObjValAs? Nat "base") (← e.getObjValAs? Int "thr") (← getOptNat e "max"))
   | _ =>
-    let b := rawBackend (← e.getObjValAs? Nat "base") (← e.getObjValAs? Int "thr") (← getOptNat e "max")
-      (← getOptNat e "al") (← e.getObjValAs? Nat "athr")
-    if op = "unload" then pure (.unload b) else pure (.save b)
+    let base ← e.getObjValAs? Nat "base"
+    let thr ← e.getObjValAs? Int "thr"
+    let mx ← getOptNat e "max"
+    let al ← getOptNat e "al"
+    let athr ← e.getObjValAs? Nat "athr"
+    if op = "unload" then pure (.rawUnload base thr mx al athr) else pure (.rawSave base thr mx al athr)
+
+/-- name / dtype / shape of every initializer of a sequence model: {"name": str, "dtype": code, "shape": [..]} -/
+def getMetas (j : Json) (k : String) : Except String (List StMeta) :=
+  match j.getObjVal? k with
+  | .error _ => pure []
+  | .ok v => do
+    let arr ← (match v with | Json.arr a => pure a.toList | _ => throw "metas: array expected")
+    arr.mapM fun e => do
+      let nm ← e.getObjValAs? String "name"
+      let code ← e.getObjValAs? Nat "dtype"
+      let shape ← e.getObjValAs? (Array Nat) "shape"
+      match IrVerif.TensorRepr.DType.ofCode code with
+      | some d => pure { name := nameBytes nm, dtype := d, shape := shape.toList }
+      | none => throw s!"bad dtype code {code}"
+
+/-- initializer positions of a safetensors save:
+    {"name": str, "dtype": code, "shape": [..], "b": hex, "n": nbytes, "e": 0/1, "c": 0/1, "s": 0/1} -/
+def getStInits (j : Json) (k : String) : Except String (List StInit) := do
+  let arr ← getArr j k
+  arr.mapM fun e => do
+    let nm ← e.getObjValAs? String "name"
+    let code ← e.getObjValAs? Nat "dtype"
+    let shape ← e.getObjValAs? (Array Nat) "shape"
+    let b ← e.getObjValAs? String "b"
+    let n ← e.getObjValAs? Nat "n"
+    let ex ← e.getObjValAs? Nat "e"
+    let c ← e.getObjValAs? Nat "c"
+    let str ← e.getObjValAs? Nat "s"
+    match IrVerif.TensorRepr.DType.ofCode code with
+    | some d => pure { name := nameBytes nm, init := { nbytes := n, isExternal := ex = 1, hasConst := c = 1,
+                                                       isString := str = 1 },
+                       dtype := d, shape := shape.toList, bytes := ofHex b }
+    | none => throw s!"bad dtype code {code}"
+
+def getStore (j : Json) : Except String (Nat × Store) := do
+  let cells ← getArr j "store"
+  let cells ← cells.mapM fun t => match t with
+    | Json.null => pure (none : Option Nat)
+    | x => do let n ← x.getNat?; pure (some n)
+  pure (cells.length, fun v => (cells[v]?).join)
+
+def getStop (j : Json) (plan : SavePlan) : Except String (Option Nat) := do
+  let phase ← getStr j "phase"
+  let occ := (getNat j "occ").toOption.getD 0
+  let ph? : Option Phase := match phase with
+    | "validate" => some .validate
+    | "loadMem" => some .loadMem
+    | "write" => some .write
+    | "serialize" => some .serialize
+    | "protoSave" => some .protoSave
+    | _ => none
+  match ph? with
+  | none => pure none
+  | some ph => match pointIndex ph occ plan.prog with
+    | some n => pure (some n)
+    | none => throw s!"no point {phase} #{occ} in the program"
 
 def handle : Handler := fun m j =>
   match m with
@@ -109,7 +170,9 @@ def handle : Handler := fun m j =>
       -- a call sequence on a model whose initializers are in memory with the given bytes: after every call
       -- where each initializer of the caller's model lives and what it reads (null: stale / unreadable)
       let vals := (← getStrs j "vals").map ofHex
-      let ops ← (← getArr j "ops").mapM getSeqOp
+      let metas ← getMetas j "metas"
+      let specs ← (← getArr j "ops").mapM getOpSpec
+      let ops := specs.map (OpSpec.toOp metas)
       let s0 : SeqState FileKey := { fs := fun _ => none, mem := vals.map Ref.inline, disk := none }
       let rec go (s : SeqState FileKey) (ops : List (SeqOp FileKey)) (acc : List Json) : List Json :=
         match ops with
@@ -127,6 +190,51 @@ def handle : Handler := fun m j =>
                 | none => Json.null)]
             go s' rest (snap :: acc)
       return obj [("steps", Json.arr (go s0 ops []).toArray)]
+  | "layout.st_unload" => some do
+      -- a whole `save_safetensors` on initializer POSITIONS: does it get past the name check and the dtype
+      -- table, the state of every position that serialization sees, the files moved into place (none on
+      -- KeyError), and what `ir.load` of the saved model holds at every position
+      let vs ← getStInits j "inits"
+      let thr ← getInt j "thr"
+      let mx ← getOptNat j "max"
+      let base := (← getStr j "base").toList
+      let namesOk := stNamesOk ((vs.filter stSnapshotB).map (·.name))
+      if !namesOk then return obj [("names_ok", toJson false)]
+      if !stSaveOk vs thr then
+        return obj [("names_ok", toJson true), ("ok", toJson false),
+          ("files", match stFiles (stSaved vs thr) mx with
+            | none => Json.null
+            | some fs => Json.arr (fs.map fun f => Json.str (toHex f)).toArray)]
+      let files := stSaveFiles vs thr mx
+      let consts := unloadStV vs thr mx
+      let cj := consts.map fun c => match c with
+        | .same => Json.str "S"
+        | .memory => Json.str "M"
+        | .external p => Json.arr #[Json.str (String.ofList (stShardName base p.shard p.total)),
+            toJson p.offset, toJson p.length]
+      let fj := files.zipIdx.map fun (img, i) =>
+        Json.arr #[Json.str (String.ofList (stShardName base i files.length)), Json.str (toHex img)]
+      let lj := (List.range vs.length).map fun k => match stLoadedAt vs thr mx k with
+        | none => Json.null
+        | some l => Json.arr #[toJson l.external, toJson l.dtype.code, natsJ l.shape, Json.str (toHex l.bytes)]
+      return obj [("names_ok", toJson true), ("ok", toJson true), ("consts", Json.arr cj.toArray),
+        ("files", Json.arr fj.toArray), ("loaded", Json.arr lj.toArray)]
+  | "layout.save_run_async" => some do
+      -- `layout.save_run_checked` with a stop point of the try block and an asynchronous exception delivered
+      -- inside the finally loop after "cut" completed assignments (null: none)
+      let vs ← getInits j "inits"
+      let thr ← getInt j "thr"
+      let fresh ← getNat j "fresh"
+      let (ncells, st) ← getStore j
+      let plan := if (← getStr j "backend") = "st" then stPlan vs thr fresh else rawPlan vs thr fresh
+      let stop ← getStop j plan
+      let debug := (getBool j "debug").toOption.getD false
+      let nonproto := (getNats j "nonproto").toOption.getD []
+      let cut ← getOptNat j "cut"
+      let (mid, fin, raised) := saveRunAsync debug (fun o => !nonproto.contains o) st plan stop cut
+      let dump (s : Store) : Json := Json.arr ((List.range ncells).map fun v => optNatJ (s v)).toArray
+      return obj [("mid", dump mid), ("fin", dump fin), ("raised", toJson raised),
+        ("snapshot", natsJ plan.snapshot)]
   | "layout.save_run_checked" => some do
       -- `layout.save_run` with the finally block as a loop through the const_value setter
       let vs ← getInits j "inits"
